@@ -31,6 +31,7 @@ type PluginEvent struct {
 	Seq    int32
 	Mtype  byte
 	Method string
+	Tag    string // value of the "Mk" (requests) or "Veto-Key" (replies) metadata of the message in hand
 }
 
 // StatusEvent is one session status transition (hook H3).
@@ -100,31 +101,70 @@ type Recorder struct {
 	Verdict func(stage string, mtype byte, method string, seq int32) *erpc.Status
 	// Stages restricts logging/vetoing to a subset (nil: all)
 	Stages map[string]bool
+	// TagVerdict, if set, decides by (plugin, stage, message tag)
+	TagVerdict func(plugin, stage, tag string, seq int32) *erpc.Status
 }
+
+// RecBody is a recording plugin that implements the body stages only.
+type RecBody struct{ R *Recorder }
+
+func (p *RecBody) Name() string                                 { return p.R.PName }
+func (p *RecBody) PreReadCallBody(c erpc.ReadCtx) *erpc.Status  { return p.R.PreReadCallBody(c) }
+func (p *RecBody) PostReadCallBody(c erpc.ReadCtx) *erpc.Status { return p.R.PostReadCallBody(c) }
+func (p *RecBody) PreReadPushBody(c erpc.ReadCtx) *erpc.Status  { return p.R.PreReadPushBody(c) }
+func (p *RecBody) PostReadPushBody(c erpc.ReadCtx) *erpc.Status { return p.R.PostReadPushBody(c) }
+
+// RecWrite is a recording plugin that implements the reply-writing stages only.
+type RecWrite struct{ R *Recorder }
+
+func (p *RecWrite) Name() string                                { return p.R.PName }
+func (p *RecWrite) PreWriteReply(c erpc.WriteCtx) *erpc.Status  { return p.R.PreWriteReply(c) }
+func (p *RecWrite) PostWriteReply(c erpc.WriteCtx) *erpc.Status { return p.R.PostWriteReply(c) }
+
+// RecHeader is a recording plugin that implements the header stages only.
+type RecHeader struct{ R *Recorder }
+
+func (p *RecHeader) Name() string                                   { return p.R.PName }
+func (p *RecHeader) PostReadCallHeader(c erpc.ReadCtx) *erpc.Status { return p.R.PostReadCallHeader(c) }
+func (p *RecHeader) PostReadPushHeader(c erpc.ReadCtx) *erpc.Status { return p.R.PostReadPushHeader(c) }
 
 // Name implements erpc.Plugin.
 func (r *Recorder) Name() string { return r.PName }
 
-func (r *Recorder) rec(stage string, peer erpc.Peer, sess string, seq int32, mtype byte, method string) *erpc.Status {
+func (r *Recorder) rec(stage string, peer erpc.Peer, sess string, seq int32, mtype byte, method string, tag ...string) *erpc.Status {
 	if r.Stages != nil && !r.Stages[stage] {
 		return nil
 	}
 	o := r.Env.Obs
-	o.Plugins = append(o.Plugins, PluginEvent{Step: o.step(), Peer: o.PeerName(peer), Plugin: r.PName, Stage: stage, Sess: sess, Seq: seq, Mtype: mtype, Method: method})
+	ev := PluginEvent{Step: o.step(), Peer: o.PeerName(peer), Plugin: r.PName, Stage: stage, Sess: sess, Seq: seq, Mtype: mtype, Method: method}
+	if len(tag) > 0 {
+		ev.Tag = tag[0]
+	}
+	o.Plugins = append(o.Plugins, ev)
+	if r.TagVerdict != nil {
+		return r.TagVerdict(r.PName, stage, ev.Tag, seq)
+	}
 	if r.Verdict != nil {
 		return r.Verdict(stage, mtype, method, seq)
 	}
 	return nil
 }
 
+func msgTag(m erpc.Message) string {
+	if b := m.Meta().Peek("Mk"); len(b) > 0 {
+		return string(b)
+	}
+	return string(m.Meta().Peek("Veto-Key"))
+}
+
 func (r *Recorder) w(stage string, c erpc.WriteCtx) *erpc.Status {
 	m := c.Output()
-	return r.rec(stage, c.Peer(), SessKey(c.Session()), m.Seq(), m.Mtype(), m.ServiceMethod())
+	return r.rec(stage, c.Peer(), SessKey(c.Session()), m.Seq(), m.Mtype(), m.ServiceMethod(), msgTag(m))
 }
 
 func (r *Recorder) r(stage string, c erpc.ReadCtx) *erpc.Status {
 	m := c.Input()
-	return r.rec(stage, c.Peer(), SessKey(c.Session()), m.Seq(), m.Mtype(), m.ServiceMethod())
+	return r.rec(stage, c.Peer(), SessKey(c.Session()), m.Seq(), m.Mtype(), m.ServiceMethod(), msgTag(m))
 }
 
 func (r *Recorder) PostDial(s erpc.PreSession, isRedial bool) *erpc.Status {
@@ -152,12 +192,18 @@ func (r *Recorder) PreReadHeader(c erpc.PreCtx) error {
 	}
 	return nil
 }
-func (r *Recorder) PostReadCallHeader(c erpc.ReadCtx) *erpc.Status  { return r.r("PostReadCallHeader", c) }
-func (r *Recorder) PreReadCallBody(c erpc.ReadCtx) *erpc.Status     { return r.r("PreReadCallBody", c) }
-func (r *Recorder) PostReadCallBody(c erpc.ReadCtx) *erpc.Status    { return r.r("PostReadCallBody", c) }
-func (r *Recorder) PostReadPushHeader(c erpc.ReadCtx) *erpc.Status  { return r.r("PostReadPushHeader", c) }
-func (r *Recorder) PreReadPushBody(c erpc.ReadCtx) *erpc.Status     { return r.r("PreReadPushBody", c) }
-func (r *Recorder) PostReadPushBody(c erpc.ReadCtx) *erpc.Status    { return r.r("PostReadPushBody", c) }
-func (r *Recorder) PostReadReplyHeader(c erpc.ReadCtx) *erpc.Status { return r.r("PostReadReplyHeader", c) }
-func (r *Recorder) PreReadReplyBody(c erpc.ReadCtx) *erpc.Status    { return r.r("PreReadReplyBody", c) }
-func (r *Recorder) PostReadReplyBody(c erpc.ReadCtx) *erpc.Status   { return r.r("PostReadReplyBody", c) }
+func (r *Recorder) PostReadCallHeader(c erpc.ReadCtx) *erpc.Status {
+	return r.r("PostReadCallHeader", c)
+}
+func (r *Recorder) PreReadCallBody(c erpc.ReadCtx) *erpc.Status  { return r.r("PreReadCallBody", c) }
+func (r *Recorder) PostReadCallBody(c erpc.ReadCtx) *erpc.Status { return r.r("PostReadCallBody", c) }
+func (r *Recorder) PostReadPushHeader(c erpc.ReadCtx) *erpc.Status {
+	return r.r("PostReadPushHeader", c)
+}
+func (r *Recorder) PreReadPushBody(c erpc.ReadCtx) *erpc.Status  { return r.r("PreReadPushBody", c) }
+func (r *Recorder) PostReadPushBody(c erpc.ReadCtx) *erpc.Status { return r.r("PostReadPushBody", c) }
+func (r *Recorder) PostReadReplyHeader(c erpc.ReadCtx) *erpc.Status {
+	return r.r("PostReadReplyHeader", c)
+}
+func (r *Recorder) PreReadReplyBody(c erpc.ReadCtx) *erpc.Status  { return r.r("PreReadReplyBody", c) }
+func (r *Recorder) PostReadReplyBody(c erpc.ReadCtx) *erpc.Status { return r.r("PostReadReplyBody", c) }
